@@ -716,3 +716,73 @@ Proof.
   destruct (Qleb max_t it) eqn:E; [|reflexivity].
   exfalso. apply H. unfold Qleb in E. apply Qle_bool_iff in E. exact E.
 Qed.
+
+(* --- whole histories: rung entries are never lost, never duplicated ------------------------- *)
+Definition rung_ext (r r' : rung) : Prop :=
+  milestone r' = milestone r /\ exists suf, recorded r' = recorded r ++ suf.
+Definition bracket_ext (b b' : bracket) : Prop := Forall2 rung_ext b b'.
+
+Lemma rung_ext_refl r : rung_ext r r.
+Proof. split; [reflexivity | exists []; rewrite app_nil_r; reflexivity]. Qed.
+
+Lemma bracket_ext_refl b : bracket_ext b b.
+Proof. induction b as [|r b IH]; constructor; [apply rung_ext_refl | exact IH]. Qed.
+
+Lemma rung_ext_trans r1 r2 r3 : rung_ext r1 r2 -> rung_ext r2 r3 -> rung_ext r1 r3.
+Proof.
+  intros [Hm1 [s1 H1]] [Hm2 [s2 H2]]. split; [congruence|].
+  exists (s1 ++ s2). rewrite H2, H1, app_assoc. reflexivity.
+Qed.
+
+Lemma bracket_ext_trans b1 : forall b2 b3, bracket_ext b1 b2 -> bracket_ext b2 b3 -> bracket_ext b1 b3.
+Proof.
+  induction b1 as [|r1 b1 IH]; intros b2 b3 H12 H23.
+  - inversion H12; subst. inversion H23; subst. constructor.
+  - inversion H12 as [|? r2 ? b2' Hr12 Hb12]; subst. inversion H23 as [|? r3 ? b3' Hr23 Hb23]; subst.
+    constructor; [eapply rung_ext_trans; eassumption | eapply IH; eassumption].
+Qed.
+
+Lemma bracket_ext_app p1 p2 q1 q2 : bracket_ext p1 p2 -> bracket_ext q1 q2 -> bracket_ext (p1 ++ q1) (p2 ++ q2).
+Proof. intros H1 H2. apply Forall2_app; assumption. Qed.
+
+Lemma bracket_on_result_ext prio rf t it m b : bracket_ext b (fst (bracket_on_result prio rf b t it m)).
+Proof.
+  destruct (bracket_on_result_spec prio rf t it m b) as [[_ Heq]|[pre [r [post [Hb [_ [_ Heq]]]]]]];
+    rewrite Heq; simpl; [apply bracket_ext_refl|].
+  subst b. apply bracket_ext_app; [apply bracket_ext_refl|].
+  constructor; [|apply bracket_ext_refl].
+  split; [reflexivity | exists [(t, m)]; reflexivity].
+Qed.
+
+Lemma moasha_step_ext prio rf max_t b e : bracket_ext b (moasha_step prio rf max_t b e).
+Proof.
+  destruct e as [t it m|t it m]; simpl.
+  - unfold moasha_on_trial_result. destruct (Qleb max_t it); simpl; [apply bracket_ext_refl | apply bracket_on_result_ext].
+  - unfold moasha_on_trial_complete. apply bracket_on_result_ext.
+Qed.
+
+Lemma moasha_step_nodup prio rf max_t b e : Forall rung_nodup b -> Forall rung_nodup (moasha_step prio rf max_t b e).
+Proof.
+  intro H. destruct e as [t it m|t it m]; simpl.
+  - unfold moasha_on_trial_result. destruct (Qleb max_t it); simpl; [exact H | apply bracket_on_result_nodup; exact H].
+  - unfold moasha_on_trial_complete. apply bracket_on_result_nodup; exact H.
+Qed.
+
+(* for EVERY history of reports and completions, every priority function, rf and max_t: every rung keeps its
+   milestone, what was recorded stays recorded in the same order (later states only append), and no trial is
+   recorded twice at a rung *)
+Lemma moasha_run_invariant prio rf max_t evs : forall b,
+  Forall rung_nodup b ->
+  bracket_ext b (moasha_run prio rf max_t b evs) /\ Forall rung_nodup (moasha_run prio rf max_t b evs).
+Proof.
+  unfold moasha_run. induction evs as [|e evs IH]; intros b Hb; cbn [fold_left].
+  - split; [apply bracket_ext_refl | exact Hb].
+  - destruct (IH (moasha_step prio rf max_t b e) (moasha_step_nodup prio rf max_t b e Hb)) as [Hext Hnd].
+    split; [|exact Hnd]. eapply bracket_ext_trans; [apply moasha_step_ext | exact Hext].
+Qed.
+
+(* a prefix of a history leaves a state that the whole history only extends: rankings at a rung are always taken
+   against at least the trials recorded there before *)
+Lemma moasha_run_app prio rf max_t b evs1 evs2 :
+  moasha_run prio rf max_t b (evs1 ++ evs2) = moasha_run prio rf max_t (moasha_run prio rf max_t b evs1) evs2.
+Proof. unfold moasha_run. apply fold_left_app. Qed.
